@@ -315,6 +315,10 @@ H("pq.VerifQueueFault", "a flush / ACK whose transaction fails (injected write/s
            "2 sizes x 2 kinds x 3 ordinals x flush/ACK x reopen", quick={"params": {"nsizes": 2}}, thorough={"params": {"nsizes": 4, "faultords": 5}, "max_paths": 400000, "budget": "1500s"}),
          H("pq.VerifQueueFull", "Write / Next failing on a full file and retried after space was freed: the retried event has its own size and bytes, nothing merged or reordered", "3 sizes x 2 ACK steps x 2 cycles x retry"),
          H("pq.VerifPqPosition", "position encoding round trip for every page id < 2^40, offset in [28,1024], event id; id ordering with wrap-around", "full-width symbolic"),
+         H("pq.VerifPqBuffer", "writer page buffer step lemma (pq/buffer.go): ReserveHdr/Append/CommitEvent/Pages/Reset against an independent byte-placement reference; "
+           "page bytes, EndOff, FirstOff/FirstID/LastID, Avail accounting, header never split, flush range = pages with unflushed committed bytes",
+           "64-byte pages, 8 boundary event sizes, symbolic bytes/header/first id, 1-2 Append chunks; 2 events, simulated flush + Reset, 1 event (thorough: 2+2)",
+           quick={"params": {"events": 2, "events2": 1}}, thorough={"params": {"events": 2, "events2": 2}, "max_paths": 200000, "budget": "900s"}),
      ])
 
 prop("C06", bounds=PQ_BOUNDS + "; crash at every index of the I/O log of a flush (1-2 events) / ACK(1) / ACK(2) after a committed prefix of 2 events, loss patterns all kept / all lost / one lost / one kept",
